@@ -46,7 +46,17 @@ pub fn check_frame(addr: u16, ty: u8, data: &[u8], borrowed: bool, rep: &mut Rep
         let (got, same, back) = if borrowed {
             probe(Frame::new(Address(addr), MsgType(ty), Data::try_new(data).expect("<=255")))
         } else {
-            probe(orig.clone())
+            // owned data comes in buffers of every shape: exactly sized, or reserved far larger than what they hold
+            // (a reused line buffer) — the capacity is not part of the frame
+            let cap = match (u64::from(addr) ^ u64::from(ty) ^ data.len() as u64) % 4 {
+                0 => data.len(),
+                1 => 255,
+                2 => 2 * data.len() + 17,
+                _ => 4096,
+            };
+            let mut v = Vec::with_capacity(cap.max(data.len()));
+            v.extend_from_slice(data);
+            probe(Frame::new(Address(addr), MsgType(ty), Data::try_new(v).expect("<=255")))
         };
         let mut bad: Vec<(&'static str, String, String)> = vec![];
         if got != want {
